@@ -366,6 +366,11 @@ class DomA:
             cv = a.const_value()
             if cv is not None:
                 return Poly.const(abs(cv))
+        if name == "re":
+            if a.const_value() is not None:
+                return a
+            if all(at[0] == "c" for at in a.atoms()):
+                return a   # built from float constants / parameters only
         return apply_fn(name, a)
 
     def fn2(self, name, a, b):
@@ -645,6 +650,10 @@ class Interp:
 
     def scalar_method(self, name, path, x, rest, e):
         d = self.dom
+        if name == "re" and not rest and not getattr(self, "scalar_mode", False):
+            # DualNum::re on a value of the inner type T projects to the innermost float: a ring homomorphism T -> F that is
+            # NOT the identity for nested numbers (it forgets the inner derivative parts) — kept as an opaque function
+            return Sc(d.fn("re", x.v))
         if name in IDENT_METHODS or name in ("simd_abs_x",):
             return x
         if name in SCALAR_FNS and not rest:
